@@ -233,7 +233,7 @@ func genHistC01(rt *rapid.T) history {
 
 func genHistC02(rt *rapid.T) history {
 	cl := pick(rt, "cleanupmode", []string{"", "far", "between"})
-	return genHistory(rt, hgenOpts{MaxLen: 60, MaxSessions: 6, Orphans: false, Cleanup: cl, Strays: false})
+	return genHistory(rt, hgenOpts{MaxLen: 60, MaxSessions: 6, Orphans: false, Cleanup: cl, Strays: false, HeldAfterDisp: true})
 }
 
 func genHistC04(rt *rapid.T) history {
@@ -261,6 +261,14 @@ func enumDriver(t *testing.T, step string, o enumOpts, exec func(history) Outcom
 
 func TestC01_Enum(t *testing.T) {
 	enumDriver(t, "c01.enum", enumOpts{NS: 2, MaxLen: 7, Cleanup: true}, execC01)
+}
+
+// three sessions/pids, shorter histories (the alphabet grows fast)
+func TestC01_Enum3(t *testing.T) {
+	si, sn := shard()
+	o := enumOpts{NS: 3, MaxLen: envInt("VERIF_ENUM3_LEN", 6), Cleanup: true}
+	RunEnum(t, "c01.enum3", func(y func(history) bool) { enumHistories(o, si, sn, y) }, execC01)
+	addNote("c01.enum3", fmt.Sprintf("all well-formed histories of length <= %d over 3 sessions/pids with far-future cleanup, shard %d/%d", o.MaxLen, si, sn))
 }
 func TestC02_Enum(t *testing.T) {
 	enumDriver(t, "c02.enum", enumOpts{NS: 2, MaxLen: 7}, execC02)
@@ -336,4 +344,87 @@ func TestC09_Enum(t *testing.T) {
 		})
 	}, execC09)
 	addNote("c09.enum", "every interleaving of {open s1, <=2 events, disp s1} with login1, followed by every interleaving of {open s2, <=2 events} with login2 (same pid) and <=2 stray s1 events")
+}
+
+// C16 at scale: hundreds of pending halves of one kind older than the cut-off
+// (a cron-heavy host, a burst of logins without sessions) — cleanup discards
+// every one of them in one pass, and keeps every younger one.
+type c16BulkCase struct {
+	Old      int  `json:"old"`      // pending halves older than the cut-off
+	Young    int  `json:"young"`    // pending halves younger than the cut-off
+	Sessions bool `json:"sessions"` // true: pending sessions (LOGIN records); false: waiting logins
+}
+
+func execC16Bulk(c c16BulkCase) Outcome {
+	var h history
+	for i := 1; i <= c.Old; i++ {
+		if c.Sessions {
+			h.Ops = append(h.Ops, hop{K: "open", S: i, P: i})
+		} else {
+			h.Ops = append(h.Ops, hop{K: "login", P: i})
+		}
+	}
+	cutAt := len(h.Ops)
+	for i := c.Old + 1; i <= c.Old+c.Young; i++ {
+		if c.Sessions {
+			h.Ops = append(h.Ops, hop{K: "open", S: i, P: i})
+		} else {
+			h.Ops = append(h.Ops, hop{K: "login", P: i})
+		}
+	}
+	h.Ops = append(h.Ops, hop{K: "clean", Cut: cutAt})
+	for i := 1; i <= c.Old+c.Young; i++ {
+		if c.Sessions {
+			h.Ops = append(h.Ops, hop{K: "login", P: i})
+		} else {
+			h.Ops = append(h.Ops, hop{K: "open", S: i, P: i})
+		}
+	}
+	ct := runHistoryAPI(h, nil)
+	if err := traceErrors(ct); err != nil {
+		return Outcome{Err: err}
+	}
+	per := map[int]int{}
+	for _, st := range ct.Steps {
+		for _, a := range st.Actual {
+			if s, ok := sesNumber(a.Ses); ok {
+				per[s]++
+			}
+		}
+	}
+	survivors := 0
+	for i := 1; i <= c.Old; i++ {
+		if per[i] > 0 {
+			survivors++
+		}
+	}
+	if survivors > 0 {
+		return fail("%d of %d pending halves (sessions=%v) older than the cut-off survived the cleanup: their late second half released the held events", survivors, c.Old, c.Sessions)
+	}
+	for i := c.Old + 1; i <= c.Old+c.Young; i++ {
+		if per[i] != 1 {
+			return fail("pending half %d (sessions=%v) younger than the cut-off: %d events emitted after its second half arrived, want 1 (cleanup must keep it)", i, c.Sessions, per[i])
+		}
+	}
+	return Outcome{NT: c.Old >= 100, Labels: []string{fmt.Sprintf("old:%d", c.Old)}}
+}
+
+func TestC16_Bulk(t *testing.T) {
+	si, sn := shard()
+	n := 0
+	RunEnum(t, "c16.bulk", func(y func(c16BulkCase) bool) {
+		for _, old := range []int{1, 50, 255, 256, 257, 400, 1000, 5000} {
+			for _, young := range []int{0, 3} {
+				for _, ses := range []bool{true, false} {
+					n++
+					if n%sn != si {
+						continue
+					}
+					if !y(c16BulkCase{Old: old, Young: young, Sessions: ses}) {
+						return
+					}
+				}
+			}
+		}
+	}, execC16Bulk)
 }
